@@ -37,7 +37,12 @@ class PROP(PropCheck):
     def corpus(self):
         fixed = ['DISPLAY("é")\nx <- 1 + 2.5\n', 'x <- "a\\qb"', ")", '"abc\\', "1.", "1.2.3", "a_b _c", "x\n\n// c\ny", "\\\n", "\\x",
                  "é٣ <- 12.50", "😀", '"\n"', "a\r\nb", "<-<=<>=>==!=", "!", "=", "", "\n", "//", "/", '"', "x // c", "007.5e3",
-                 "RETURN\n}", "9" * 400, "0." + "0" * 330 + "1"]
+                 "RETURN\n}", "9" * 400, "0." + "0" * 330 + "1",
+                 # fractional literals with 16-19 significant digits (double rounding when mantissa and scale are rounded separately)
+                 "1.61803398874989485", "9007199254740993.0", "0.30000000000000004", "123456789012345.678", "2.718281828459045235",
+                 "4503599627370497.5", "0.1234567890123456789", "9.999999999999999999", "72057594037927945.0", "1.0000000000000000001",
+                 # a byte-order mark is not a character of the language, wherever it stands
+                 "\ufeffDISPLAY(1)", "x <- 1\ufeff", "\ufeff"]
         return [Case(s, kind="corpus") for s in fixed]
 
     def cases(self, rng, tier, scale=1):
@@ -59,6 +64,13 @@ class PROP(PropCheck):
             add(G.random_string(rng, 60))
         for _ in range((600 if tier == "quick" else 20000) * scale):
             add(G.random_tokenish(rng, rng.randint(1, 25)))
+        # number literals of every length up to 22 digits, with and without a fraction: each denotes the nearest double
+        for _ in range((250 if tier == "quick" else 6000) * scale):
+            nd = rng.randint(1, 22)
+            ds = "".join(rng.choice("0123456789") for _ in range(nd))
+            cut = rng.randint(1, nd)
+            lit = ds[:cut] + ("." + ds[cut:] if cut < nd else "")
+            add(rng.choice(["", "x <- ", "DISPLAY("]) + lit)
         progs = G.example_programs()
         for _ in range((300 if tier == "quick" else 8000) * scale):
             s = rng.choice(progs)
@@ -80,6 +92,8 @@ class PROP(PropCheck):
             return "the scanner aborted the process"
         if impl.startswith("PANIC"):
             return "the scanner panicked: " + C.unhx(impl.split(" ")[1]).decode("utf-8", "replace")[:200]
+        if impl.startswith("APIMISMATCH"):
+            return "Lexer::scan and the tool's lexing step (ApLang::lex) disagree on whether this text tokenises: " + impl
         has_err = G.lexical_error(case.src)
         if impl.startswith("OK"):
             if has_err:
